@@ -521,7 +521,13 @@ class Body:
         if len(ds) == 1 and len(whole) == 1 and depth < 40:
             self._termcache[key] = ("local", l, name)  # cycle guard
             d = whole[0]
-            if d[0] == "stmt" and d[3]["rv"]["k"] in ("repeat",) and l in self._mut_borrowed():
+            if d[0] == "call" and l in self._mut_borrowed() and strip_generics(d[3].get("callee", "")).rsplit("::", 1)[-1] in ("new", "with_capacity", "default") \
+                    and strip_generics(d[3].get("callee", "")).startswith(("alloc::vec::Vec", "smallvec::SmallVec", "alloc::string::String", "alloc::collections::", "std::collections::", "core::default::Default")) \
+                    and not self.local_ty(l).startswith("&"):
+                # an empty collection that is then filled in place (`let mut v = Vec::new(); for x in xs { v.push(f(x)) }`): its value is
+                # what was put into it - keep it as a local so that provenance adds the in-place sources
+                t = ("local", l, name)
+            elif d[0] == "stmt" and d[3]["rv"]["k"] in ("repeat",) and l in self._mut_borrowed():
                 # a buffer initialised with a filler and then written in place (`let mut b = [0u8; 32]; b[..8].copy_from_slice(x)`):
                 # its value is not its initialiser; keep it as a local so that provenance adds what is written into it
                 t = ("local", l, name)
